@@ -17,6 +17,7 @@ import (
 	"fmt"
 	"io"
 	"log/slog"
+	"math"
 	"math/rand"
 	"net/http"
 	"net/url"
@@ -36,6 +37,7 @@ import (
 	"github.com/resonatehq/resonate/internal/kernel/bus"
 	"github.com/resonatehq/resonate/internal/kernel/t_aio"
 	"github.com/resonatehq/resonate/internal/metrics"
+	"github.com/resonatehq/resonate/pkg/idempotency"
 	"github.com/resonatehq/resonate/pkg/message"
 	"github.com/resonatehq/resonate/pkg/promise"
 	"github.com/resonatehq/resonate/pkg/task"
@@ -295,11 +297,27 @@ func runCase(drv *lean.Driver, reg *metrics.Metrics, rt *router.Router, hp *http
 		w.AddPlugin(stubs[p])
 	}
 	one := int64(1)
-	tk := &task.Task{Id: "__" + c.Kind + ":p<&>", Counter: 3, Timeout: 99, State: task.Enqueued, RootPromiseId: "p", Recv: recv,
+	// timeouts over the full 64-bit range (C20): the dispatched body must carry them digit for digit
+	bodyCase := c.Idx
+	timeouts := []int64{99, 1<<53 + 1, math.MaxInt64, 0, 1<<62 + 12345, math.MaxInt64 - 1}
+	tmo := timeouts[bodyCase%len(timeouts)]
+	big := int64(1<<53+3) + int64(bodyCase)
+	tk := &task.Task{Id: "__" + c.Kind + ":p<&>", Counter: 3, Timeout: tmo, State: task.Enqueued, RootPromiseId: "p", Recv: recv,
 		Mesg: &message.Mesg{Type: message.Type(c.Kind), Root: "root", Leaf: "leaf"}, CreatedOn: &one}
+	if bodyCase%2 == 1 {
+		tk.CreatedOn = &big
+	}
 	sub := &t_aio.SenderSubmission{Task: tk, ClaimHref: "http://r/tasks/claim/" + tk.Id + "/3", CompleteHref: "http://r/tasks/complete/" + tk.Id + "/3", HeartbeatHref: "http://r/tasks/heartbeat/" + tk.Id + "/3"}
 	if c.Kind == "notify" {
 		sub.Promise = &promise.Promise{Id: "p<&>", State: promise.Resolved, Tags: map[string]string{}, Value: promise.Value{Data: []byte("v")}, CompletedOn: &one}
+		sub.Promise.Timeout = tmo
+		if bodyCase%2 == 1 {
+			ik := idempotency.Key("k<&>\u00e9")
+			sub.Promise.CompletedOn, sub.Promise.CreatedOn = &big, &one
+			sub.Promise.Param = promise.Value{Headers: map[string]string{"h<": "&>"}, Data: []byte{0, 255, '<'}}
+			sub.Promise.Tags = map[string]string{"resonate:invoke": "poll://g/i", "t<&>": "\u00e9"}
+			sub.Promise.IdempotencyKeyForCreate = &ik
+		}
 	}
 	var panicked any
 	func() {
@@ -411,6 +429,28 @@ func targetConfigs(ts []Target) []sender.TargetConfig {
 	return out
 }
 
+
+
+// sameRecord: the object found in the dispatched body, decoded with exact numbers, equals the record's own
+// JSON encoding decoded the same way (every field, every digit of 64-bit integers, every byte of data)
+func sameRecord(got map[string]any, rec any) string {
+	raw, err := json.Marshal(rec)
+	if err != nil {
+		return "record does not encode: " + err.Error()
+	}
+	var want map[string]any
+	dec := json.NewDecoder(bytes.NewReader(raw))
+	dec.UseNumber()
+	if err := dec.Decode(&want); err != nil {
+		return "record encoding does not decode: " + err.Error()
+	}
+	if !reflect.DeepEqual(got, want) {
+		g, _ := json.Marshal(got)
+		return fmt.Sprintf("body has %s, record is %s", g, raw)
+	}
+	return ""
+}
+
 func checkBody(m *aio.Message, sub *t_aio.SenderSubmission) string {
 	var b map[string]any
 	dec := json.NewDecoder(bytes.NewReader(m.Body))
@@ -426,6 +466,9 @@ func checkBody(m *aio.Message, sub *t_aio.SenderSubmission) string {
 		if p == nil || p["id"] != sub.Promise.Id || p["state"] != "RESOLVED" {
 			return fmt.Sprintf("notification body carries promise %v, want id %s RESOLVED", p, sub.Promise.Id)
 		}
+		if what := sameRecord(p, sub.Promise); what != "" {
+			return "notification body does not carry the promise exactly as its record encodes it: " + what
+		}
 		return ""
 	}
 	t, _ := b["task"].(map[string]any)
@@ -435,6 +478,9 @@ func checkBody(m *aio.Message, sub *t_aio.SenderSubmission) string {
 	}
 	if t["id"] != sub.Task.Id || fmt.Sprint(t["counter"]) != fmt.Sprint(sub.Task.Counter) {
 		return fmt.Sprintf("body names task %v counter %v, want %s %d", t["id"], t["counter"], sub.Task.Id, sub.Task.Counter)
+	}
+	if what := sameRecord(t, sub.Task); what != "" {
+		return "body does not carry the task exactly as its record encodes it: " + what
 	}
 	if h["claim"] != sub.ClaimHref || h["complete"] != sub.CompleteHref || h["heartbeat"] != sub.HeartbeatHref {
 		return fmt.Sprintf("links %v, want %s %s %s", h, sub.ClaimHref, sub.CompleteHref, sub.HeartbeatHref)
